@@ -106,16 +106,22 @@ class SelectExtractor(BaseExtractor, SourceHandlerMixin):
                                     "bracketed"
                                 ):
                                     expressions = bracketed.get_children("expression")
-                                    holder.add_read(
-                                        SqlFluffTable(
-                                            escape_identifier_name(expressions[0].raw)
+                                    if len(expressions) > 3:
+                                        # staging_table, min_range_value, max_range_value, target_table
+                                        holder.add_read(
+                                            SqlFluffTable(
+                                                escape_identifier_name(
+                                                    expressions[0].raw
+                                                )
+                                            )
                                         )
-                                    )
-                                    holder.add_write(
-                                        SqlFluffTable(
-                                            escape_identifier_name(expressions[3].raw)
+                                        holder.add_write(
+                                            SqlFluffTable(
+                                                escape_identifier_name(
+                                                    expressions[3].raw
+                                                )
+                                            )
                                         )
-                                    )
 
     def _handle_select_into(self, segment: BaseSegment, holder: SubQueryLineageHolder):
         """
